@@ -72,14 +72,18 @@ def invoke(fn, names_, args, environment, pos):
         if isinstance(arg, NodeSpread):
             argvalue = arg.evaluate(environment)
             if argvalue.isMap():
-                for key, value in argvalue.value.items():
+                for key in argvalue.getSortedKeys():
+                    value = argvalue.value[key]
                     values.append(value)
                     if key.isString():
                         names.append(key.value)
                     else:
                         names.append(None)
             else:
-                for value in argvalue.value:
+                spread = argvalue.value
+                if argvalue.isSet():
+                    spread = argvalue.getSortedItems()
+                for value in spread:
                     values.append(value)
                     names.append(None)
         else:
@@ -1229,7 +1233,12 @@ class NodeList:
         for item in self.items:
             if isinstance(item, NodeSpread):
                 lst = item.evaluate(environment)
-                for value in lst.value:
+                spread = lst.value
+                if lst.isSet():
+                    spread = lst.getSortedItems()
+                elif lst.isMap():
+                    spread = lst.getSortedKeys()
+                for value in spread:
                     result.addItem(value)
             else:
                 result.addItem(item.evaluate(environment))
